@@ -339,7 +339,8 @@ def make_selectors(sched):
 
         def select(self, timeout=None):
             def ready():
-                return [s for s, e in self.socks if (e & _sel.EVENT_WRITE) or s.readable()]
+                # (a socket that has been closed is silently gone from the kernel's poll set: it is never reported)
+                return [s for s, e in self.socks if not s.closed and ((e & _sel.EVENT_WRITE) or s.readable())]
             sched.ev("select", timeout=-1 if timeout is None else int(round(timeout * 1000)))
             if not ready():
                 sched.block(lambda: bool(ready()), timeout, what="select")
